@@ -6,9 +6,10 @@ def run(prog, rep):
                        '(i) every hard rule named by the property is present as a must-rule and every soft rule as a should-rule in '
                        'the right validate overload; (ii) must feeds the error slot, should the warning slot, could none, and '
                        'concatenation keeps the slots apart; (iii) File::validate reaches every entity of each kind including features '
-                       'and nested sources/sections; (iv) no predicate functor lets a later loop iteration overwrite an untested verdict. '
+                       'and nested sources/sections; (iv) no predicate functor lets a later loop iteration overwrite an untested verdict, and its element loops leave early only once the verdict has failed (or for a descriptor beyond the data rank, which the rank rule reports). '
                        'The predicates\' own arithmetic is not decided.')
     r_valid.run_table(prog, rep)
     r_valid.run_channels(prog, rep)
     r_valid.run_walk(prog, rep)
     r_valid.run_sticky(prog, rep)
+    r_valid.run_cover(prog, rep)
